@@ -132,6 +132,12 @@ Proof. intros. stp H. rewrite H0. reflexivity. Qed.
 Lemma st_call2_err : forall pc op x a b e st fk vs l o g, at_ pc (Icall (NF2 op)) -> n_fn2 nt op x a b = inr e ->
   step nt code (N pc (SV x :: SV a :: SV b :: st) fk vs l o g) = Next (B (Some (VE (err_of e))) fk vs l g).
 Proof. intros. stp H. rewrite H0. reflexivity. Qed.
+Lemma st_call1_ok : forall pc f x a w st fk vs l o g, at_ pc (Icall (NF1 f)) -> n_fn1 nt f x a = inl w ->
+  step nt code (N pc (SV x :: SV a :: st) fk vs l o g) = Next (N (S pc) (SV w :: st) fk vs l o g).
+Proof. intros. stp H. rewrite H0. reflexivity. Qed.
+Lemma st_call1_err : forall pc f x a e st fk vs l o g, at_ pc (Icall (NF1 f)) -> n_fn1 nt f x a = inr e ->
+  step nt code (N pc (SV x :: SV a :: st) fk vs l o g) = Next (B (Some (VE (err_of e))) fk vs l g).
+Proof. intros. stp H. rewrite H0. reflexivity. Qed.
 Lemma st_indexarray_ok : forall pc i v w st fk vs l o g, at_ pc (Iindexarray i) -> index_arr nt v i = inl w ->
   step nt code (N pc (SV v :: st) fk vs l o g) = Next (N (S pc) (SV w :: st) fk vs l o g).
 Proof. intros. stp H. unfold index_arr in H0. destruct v; try discriminate; rewrite H0; reflexivity. Qed.
